@@ -158,14 +158,14 @@ CLAIMS['C09'] = dict(category='proof', ref='5 Core E, 8 C09', text=_BROKER_TEXT 
     "C09_refines_reference: after any admitted history DISCONNECT publishes nothing and any other end publishes exactly the will of the connection's own CONNECT (the reference broker's record), accepted by its fan-out.") + _REFINE + _PARTIAL_SCHED +
     " Keep-alive expiry as a cause is an event of the model; its timing is C19. A CONNECT with the client identifier of a live connection ends that connection (take-over, MQTT-3.1.4-2) and publishes ITS will before the handshake: C09_only_stop_reads_will excludes exactly these first packets (`mayStop`), `quiet` histories treat such a CONNECT as an end of the connection (C09_affectsWill_iff), and for all admitted histories C09_take_over_is_an_end says that such a CONNECT emits exactly the outputs of the end of that connection (`.close`) followed by its CONNACK, in the model and in the reference broker, so C09_refines_reference applies to the connection taken over (C10_refines_reference: the sessions side). Source ties for the take-over (Properties/C09Source.lean, regenerated facts of extract/facts_takeover.go): stop() reads the stored CONNECT's will flag, the will and the CleanSession flag only after wgStopped.Wait(), so a DISCONNECT received before a stop() called from outside (take-over, Server.Close) still suppresses the will (C09_stop_reads_will_after_wait, with the life-cycle model's run of that case), and connectMu is held by defer from before the take-over to the registration in svcs (C09_connectMu_held_to_registration); the held take-over scenario `life takeover disc` runs that case on the real broker.")
 CLAIMS['C10'] = dict(category='proof', ref='5 Core E, 8 C10', text=_BROKER_TEXT % (
-    "Theorems (19): SessionPresent=1 iff CleanSession=0, non-empty id and the store holds a session kept from a CleanSession=0 connection "
+    "Theorems (23): SessionPresent=1 iff CleanSession=0, non-empty id and the store holds a session kept from a CleanSession=0 connection "
     "(C10_session_present); a clean CONNECT starts from a fresh empty session, tries unchanged (C10_clean_starts_empty); after a clean session ends the "
     "store no longer maps its id (C10_clean_discarded), a persistent one stays with its topics and open QoS 2 exchanges (C10_persistent_kept); on resume the "
     "topic store is the re-subscription of the kept list and every kept entry answers the subscriber lookup for matching names (C10_resume_resubscribes, "
     "C10_resume_trie via C06 smatch_char); a CONNECT under id X changes neither store entry nor session of Y != X (C10_keyed_by_id); trie well-formed in "
     "every reachable state (C10_trie_wf_reachable); regenerated constants = specification's (C10_facts). "
     "C10_refines_reference: after any admitted history an accepted CONNECT first takes over the live connection of its client identifier, if any (there is at most one; model `stop` = reference `endConn`, not graceful), then is answered CONNACK 0 with SessionPresent = (CleanSession=0 and the reference broker stores a session for the id after the take-over: iff the connection taken over had CleanSession=0, or an older session was stored), and the trie then holds the reference broker's held list - nothing of the connection taken over, the resumed subscriptions for the new one.") + _REFINE + _PARTIAL_SCHED +
-    " Two live connections under one client identifier no longer exist: take-over (finding G5, repaired; the regression witness - the older connection ending later must not take the newer one's subscription with it - is replayed on every run). Source ties for the take-over (Properties/C10Source.lean, regenerated facts of extract/facts_takeover.go): disconnectClient drops the entries whose `stopped` channel is closed (not those whose `closed` flag is set), collects the client's connections, unlocks, and for each calls stop() and waits for `stopped` - for every population of live / ending / finished connections it returns with every connection of the client FINISHED, which is the state the model's `first` runs in; handleConnection takes connectMu before it and holds it to its return (C10_takeover_shape_is_source); Session.Resumable is initted && Cmsg != nil && !CleanSession and getSession resumes only behind it, the model's `filter (!s.clean)` (C10_resumable_is_source). The held take-over scenario `life takeover resume` (a CONNECT while the old connection's teardown is pending behind a client that does not read: no CONNACK before the teardown has finished, and the new connection's session survives the old one's late end) is part of every run.")
+    " Two live connections under one client identifier no longer exist: take-over (finding G5, repaired; the regression witness - the older connection ending later must not take the newer one's subscription with it - is replayed on every run). Source ties for the take-over (Properties/C10Source.lean, regenerated facts of extract/facts_takeover.go): disconnectClient drops the entries whose `stopped` channel is closed (not those whose `closed` flag is set), collects the client's connections, unlocks, and for each calls stop() and waits for `stopped` - for every population of live / ending / finished connections it returns with every connection of the client FINISHED, which is the state the model's `first` runs in; handleConnection takes connectMu before it and holds it to its return (C10_takeover_shape_is_source); Session.Resumable is initted && Cmsg != nil && !CleanSession and getSession resumes only behind it, the model's `filter (!s.clean)` (C10_resumable_is_source). The held take-over scenario `life takeover resume` (a CONNECT while the old connection's teardown is pending behind a client that does not read: no CONNACK before the teardown has finished, and the new connection's session survives the old one's late end)  is part of every run. FAILED HANDSHAKES (Model/Broker.lean `firstFail`/`connectFail`, Spec/Broker.lean `firstFail`/`connectFail`, Proofs/BrokerRefineFail.lean): the path of handleConnection on which the CONNACK of an accepted CONNECT cannot be written (peer gone) is part of the model - take-over, then the session lookup / Session.Update / creation of getSession, and nothing else: no connection, no re-subscription, no stop() - and of the reference broker (CleanSession=1 discards the stored state, CleanSession=0 keeps it exactly as it was); C10_failed_handshake_refines extends the refinement theorem to histories with such events (EvX, BrokerX_refines_spec: R preserved, outputs accepted), C10_failed_handshake_keeps_session / _model_keeps_session state that the stored session, its subscriptions and open QoS 2 exchanges survive the failed attempt on both sides, C10_failed_write_is_source ties the error branch to the source (regenerated fact takeoverWriteFailReturnsOnly: the branch is `return nil, err` alone). Tie: event `failfirst` (the broker's end of the pipe refuses every write) in one CONNECT of nine of every broker generator; whether a CleanSession=0 CONNECT that could not be answered and found no state counts as an earlier CleanSession=0 connection is left open by the property - the SessionPresent bit of that client's next CONNACK is not compared in the specification stream.")
 CLAIMS['C11'] = dict(category='proof', ref='5 Core E, 8 C11', text=_BROKER_TEXT % (
     "Theorems (15): CONNACK 0 is emitted exactly when the reference refusal list is empty; otherwise the state is unchanged and the answer is a silent close "
     "with 'malformed' among the reasons or a code k!=0 with k among them (C11_table, C11_accept_iff, C11_checks_are_spec); precedence of the code's checks "
